@@ -329,6 +329,9 @@ func (tm *TimerManager) NewAddressMsg(ev ReceivedMsgEvent, validatorKind params.
 
 // should be called when start the consensus server
 func (tm *TimerManager) timerLoop() {
+	if simTimerLoop(tm) {
+		return
+	}
 	//stepTicker := time.NewTicker(tm.stepInterval)
 	//defer stepTicker.Stop()
 
